@@ -372,10 +372,17 @@ impl Job {
         let mut result = ExecutionResult::success();
 
         while let Some(task) = self.tasks.back_mut() {
-            match task.wait().await? {
+            let wait_result = task.wait().await;
+
+            // A task that has yielded its result -- be it an error -- is finished and
+            // must not be awaited again.
+            if !matches!(wait_result, Ok(JobTaskWaitResult::Stopped)) {
+                self.tasks.pop_back();
+            }
+
+            match wait_result? {
                 JobTaskWaitResult::Completed(execution_result) => {
                     result = execution_result;
-                    self.tasks.pop_back();
                 }
                 JobTaskWaitResult::Stopped => {
                     self.state = JobState::Stopped;
